@@ -18,7 +18,7 @@ func (msgs SyncCommitteeMessages) Select(root common.Root, members []common.Vali
 	out := make([]*altair.SyncCommitteeMessage, 0, len(members))
 	for _, vi := range members {
 		msg := msgs[vi]
-		if msg.BeaconBlockRoot == root {
+		if msg != nil && msg.BeaconBlockRoot == root {
 			out = append(out, msg)
 		}
 	}
